@@ -229,7 +229,7 @@ def worker(args) -> Dict[str, Any]:
             findings.append({"id": r["id"], "kind": "mon", "record": rec, "text": r["pyMsgs"][:8]})
         if "error" in o:
             findings.append({"id": r["id"], "kind": "driver-error", "text": [o["error"][:300]], "record": rec})
-        elif o.get("mon"):
+        if "error" not in o and o.get("mon"):
             findings.append({"id": r["id"], "kind": "mon", "text": o["mon"][:8], "record": rec})
     s = recs[0]
     return {"n": len(recs), "steps": steps, "rows": events, "findings": fw.pick(findings, 20), "n_findings": len(findings), "shapes": sorted(shapes, key=str),
